@@ -4,7 +4,9 @@ tables + call recorder), treadmill.newnet, the `socket` and `random` modules
 of treadmill.runtime, `socket.gethostbyname`, plugin_manager.
 
 Every fake is *strict* about I/O: only the I/O functions the modules under
-test were seen to call exist.  What does no I/O - constants, enums, exception
+test were seen to call exist (`SeamIO`, the `io` module of the start / finish
+path, is the real one behind a counter that can make the k-th open()/read of
+an op fail).  What does no I/O - constants, enums, exception
 classes, address conversion functions - is passed through to the real module,
 so that a correct refactoring is not flagged.  Any other attribute access is a
 harness error: it is raised AND recorded (fsseam.PENDING_HARNESS_ERRORS),
@@ -17,6 +19,8 @@ it can be the kill point of the op and it can be told to fail with
 
 import errno
 
+import io as _real_io
+import os as _real_os
 import socket as real_socket
 
 from .fsseam import harness_error
@@ -411,6 +415,124 @@ class FakeSocketMod(Strict):
         """The process of `actor` died: the kernel closes its sockets."""
         for key in [k for k, who in self.bound.items() if who == actor]:
             del self.bound[key]
+
+
+class SeamFile:
+    """A file opened through `SeamIO`: the real file object, with every read
+    call announced to the shim first (it is an I/O point that can fail)."""
+
+    def __init__(self, shim, real, path):
+        self._shim = shim
+        self._file = real
+        self._path = path
+
+    def _point(self):
+        self._shim.point('read', self._path)
+
+    def read(self, *args):
+        self._point()
+        return self._file.read(*args)
+
+    def readline(self, *args):
+        self._point()
+        return self._file.readline(*args)
+
+    def readlines(self, *args):
+        self._point()
+        return self._file.readlines(*args)
+
+    def __iter__(self):
+        return self
+
+    def __next__(self):
+        line = self.readline()
+        if not line:
+            raise StopIteration
+        return line
+
+    def __enter__(self):
+        self._file.__enter__()
+        return self
+
+    def __exit__(self, *exc_info):
+        return self._file.__exit__(*exc_info)
+
+    def __getattr__(self, name):
+        if name.startswith('__'):
+            raise AttributeError(name)
+        return getattr(self._file, name)
+
+
+class SeamIO(Strict):
+    """Stands in for the `io` module inside the modules under test
+    (services._base_service, appcfg.manifest, runtime.linux._finish).
+
+    Every `io.open()` and every read call on a file opened through it is an
+    *I/O point* of the current op, numbered from 1 in program order.  When the
+    op says `io_fault = {"at": k, "errno": E}` the k-th point fails with
+    OSError(E) instead of being performed: a transient failure of one system
+    call (file table full, out of memory, I/O error, access denied), gone
+    when the call is made again.  ENFILE / EMFILE / EACCES are errors of
+    open(2) only: when the k-th point is a read they are delivered as EIO.
+    I/O points are not steps (`Seam.tick`): the numbering of kill points and
+    commands of an op is what it was without this shim.
+    """
+
+    _what = 'io'
+    _real = _real_io
+    OPEN_ONLY = (errno.ENFILE, errno.EMFILE, errno.EACCES)
+
+    def __init__(self, seam):
+        self._seam = seam
+        self.fault = None     # (k, errno) | None
+        self.points = 0       # I/O points passed in this op
+        self.fired = 0
+        self.last = None      # (kind, base name, errno) of the last failure
+
+    def begin(self, fault=None):
+        self.fault = fault
+        self.points = 0
+        self.fired = 0
+        self.last = None
+
+    def end(self):
+        self.fault = None
+
+    def suspend(self):
+        """Another process runs (the service a client waits for): its calls
+        are not I/O points of the current op."""
+        saved = (self.fault, self.points)
+        self.fault = None
+        return saved
+
+    def resume(self, saved):
+        self.fault, self.points = saved
+
+    def point(self, kind, path):
+        self.points += 1
+        base = _real_os.path.basename(str(path))
+        seam = self._seam
+        if seam.on_step is not None:
+            seam.on_step('io:' + kind, base)
+        fault = self.fault
+        if fault is not None and self.points == fault[0]:
+            self.fault = None
+            code = fault[1]
+            if kind != 'open' and code in self.OPEN_ONLY:
+                code = errno.EIO
+            self.fired += 1
+            self.last = (kind, base, code)
+            seam.failed = True
+            raise OSError(code, _real_os.strerror(code), str(path))
+
+    def open(self, file, mode='r', *args, **kwargs):
+        # pylint: disable=redefined-builtin
+        if not isinstance(file, (str, bytes)):
+            raise harness_error('unexpected io.open(%r) by the code under '
+                                'test' % (file,))
+        self.point('open', file)
+        real = _real_io.open(file, mode, *args, **kwargs)
+        return SeamFile(self, real, file)
 
 
 class HotFirst:
